@@ -77,6 +77,7 @@ func (s *Sim) installC17() {
 	seen := map[string]bool{}  // inc|name|size|mtime announced by a scan of an incarnation
 	seenV := map[string]bool{} // name|size|mtime returned by any scan
 	nScans := 0
+	var scanAt []time.Duration // start of every scan, on the simulation clock
 	s.hookScan = func(n *SendNode, sc *scanObs) {
 		for i, name := range sc.Names {
 			if ok, why := s.staticEligible(name, sc.Sizes[i]); !ok {
@@ -102,6 +103,7 @@ func (s *Sim) installC17() {
 			seenV[fmt.Sprintf("%s|%d|%d", name, sc.Sizes[i], sc.Times[i])] = true
 		}
 		nScans++
+		scanAt = append(scanAt, sc.Start.Sub(s.epoch))
 	}
 	// "if": an eligible file is picked up. Judged at the end for versions that
 	// had been eligible, untouched, for many scan periods.
@@ -143,6 +145,15 @@ func (s *Sim) installC17() {
 			}
 			if end-since < 5*period+10*time.Minute {
 				continue
+			}
+			after := 0 // scans that started once the file had been eligible for a while
+			for _, t := range scanAt {
+				if t > since+period {
+					after++
+				}
+			}
+			if after < 3 {
+				continue // (the scheduler may let time pass while the scanner is held at its gate)
 			}
 			if !seenV[fmt.Sprintf("%s|%d|%d", name, v.Size, v.Mtime.UnixNano())] {
 				s.violate("C17", "eligible-file-never-scanned", "%s (size %d) has been eligible since %s at the latest, %d scans have run since the start, none returned it", name, v.Size, since.Round(time.Second), nScans)
